@@ -19,8 +19,9 @@ THEOREMS = [f"NumbersModel.Props.C01.{t}" for t in (
     "row_offsets_fit_int16", "row_roundtrip", "tiles_cover", "tiles_bounded", "tiles_count",
     "table_roundtrip", "table_saved_shape", "seconds_payload_roundtrip_partial")] + [
     # the decimal128 clause over _unpack_decimal128 as py2lean regenerates its integer part from cell.py on every run
-    "NumbersModel.Props.C01.Src.src_d128_roundtrip", "NumbersModel.Props.C01.Src.src_d128_unpack_errors",
-    "NumbersModel.Translated.unpack_decimal128_eq_model"]
+    "NumbersModel.Props.C01.Src.src_d128_roundtrip", "NumbersModel.Props.C01.Src.src_d128_roundtrip_both",
+    "NumbersModel.Props.C01.Src.src_d128_pack_total", "NumbersModel.Props.C01.Src.src_d128_unpack_errors",
+    "NumbersModel.Translated.unpack_decimal128_eq_model", "NumbersModel.Translated.pack_decimal128_eq_model"]
 TRANSLATED_GROUPS = ("Dec128",)
 PARTIAL = {
     "NumbersModel.Props.C01.seconds_payload_roundtrip_partial":
@@ -61,9 +62,11 @@ MANIFEST = {
             "path Table.write -> ... -> Cell.value (value <-> payload through decimal / struct / datetime, grid growth) is "
             "exercised by an exact-equality oracle on generated documents, which is exploration, not proof. The integer part of "
             "_unpack_decimal128 (byte reads, & << >> |, the 14-byte loop, the sign test - everything before the final "
-            "float(...)) is additionally TRANSLATED from cell.py on every run (harness/py2lean.py -> Gen/TrDec128.lean), proved "
-            "equal to Decimal128.unpack for every buffer (Lemmas/TrDec128.lean), the round-trip clause is restated over it "
-            "(Props.C01.Src.src_d128_roundtrip) and the translated definition is run against the real function (trdriver).",
+            "float(...)) and _pack_decimal128 from the decimal triple on (bytearray item updates, the while loop over the "
+            "mantissa) are additionally TRANSLATED from cell.py on every run (harness/py2lean.py -> Gen/TrDec128.lean), proved "
+            "equal to Decimal128.unpack for every buffer resp. Decimal128.pack for every triple (Lemmas/TrDec128.lean), the "
+            "round-trip clause is restated over them (Props.C01.Src.src_d128_roundtrip_both) and the translated definitions are "
+            "run against the real functions (trdriver).",
     "note": "assumed (exercised, not proved): float(repr-decimal) is the correctly rounded inverse of str(float) for <= 15 (in fact "
             "<= 17) significant digits; decimal.Context(prec=34).create_decimal(str(x)) is exact for such x; struct '<d' is "
             "bijective; timedelta(seconds=float) / total_seconds() invert each other at microsecond resolution within +-100 years "
@@ -263,7 +266,7 @@ def check_decimal128(ctx: Ctx):
                           f"_unpack_decimal128(_pack_decimal128({v!r})) = {ob[3:] if back is not None else ob}", inp)
         if len(b) != 16:
             ctx.violation("decimal128-payload-length", f"_pack_decimal128({v!r}) has {len(b)} bytes", inp)
-    ctx.correspond("_pack_decimal128 vs pack(decimal triple of str(value))", req_p, out_p)
+    ctx.correspond("_pack_decimal128 vs pack(decimal triple of str(value))", req_p, out_p, translated=True)
     correspond_map(ctx, "_unpack_decimal128(_pack_decimal128(v)) vs float(unpack(...))", req_u, out_u, dec_to_float_repr,
                    tr_fmap=tr_to_float_repr)
 
@@ -1057,6 +1060,7 @@ def run(ctx: Ctx):
     seen, orig = limited_violations(ctx)
     try:
         check_decimal128(ctx)
+        common.python_operator_stream(ctx)
         check_rows(ctx)
         check_documents(ctx)
         check_pipeline(ctx)
